@@ -56,7 +56,7 @@ theorem exec_refines (bio : BitVec 32) (c : Core) (w : BitVec 16)
         unfold definedIIx at hd
         simp only [BitVec.reduceEq, reduceIte] at hd ⊢
         simp only [Bool.decide_and, Bool.and_eq_true, decide_eq_true_eq, SP] at hd
-        have := oneOp_push bio c (w.extractLsb' 0 4) (w.extractLsb' 4 2) (decide (w.extractLsb' 6 1 = 1)) hd.2.2.1
+        have := oneOp_push bio c (w.extractLsb' 0 4) (w.extractLsb' 4 2) (decide (w.extractLsb' 6 1 = 1)) hd.2.1
         exact ⟨_, rfl, rfl, this.1, this.2⟩
       · rw [h] at hd ⊢
         unfold definedIIx at hd
@@ -136,6 +136,36 @@ def addState : SimState :=
 example : Defined addState.regs addState.mem := by unfold Defined; decide
 example : getReg (Msp430.SimArch.step addState.regs addState.mem).regs 2 = 0x0103 ∧
     getReg (Msp430.SimArch.step addState.regs addState.mem).regs 6 = 0 := by decide
+
+/-! ### Non-vacuity, SP special cases: `push sp`, `push 2(sp)`, `push @sp`, `push @sp+` are defined states
+    (U8 no longer excludes them) and the architecture evaluates the source AFTER "SP - 2 -> SP" -/
+
+/-- SP = 0x0400, word 0x1111 at 0x03fe (the slot to be written), 0x2222 at 0x0400 (top of stack), instruction `w`
+    followed by the extension word 0x0002 -/
+def pushSpState (w : BitVec 16) : SimState :=
+  { regs := setReg (setReg 0 0 0xf000) 1 0x0400,
+    mem := fun a => if a = 0xf000 then w.extractLsb' 0 8 else if a = 0xf001 then w.extractLsb' 8 8
+                    else if a = 0xf002 then 0x02
+                    else if a = 0x03fe then 0x11 else if a = 0x03ff then 0x11
+                    else if a = 0x0400 then 0x22 else if a = 0x0401 then 0x22 else 0,
+    cycleCount := 0, nestedCallCount := 0, breakIo := 0xffffffff }
+
+def tosAfter (w : BitVec 16) : BitVec 16 × BitVec 16 :=
+  let st := Msp430.SimArch.step (pushSpState w).regs (pushSpState w).mem
+  (getReg st.regs 1, rd16 st.mem (getReg st.regs 1))
+
+example : Defined (pushSpState 0x1201).regs (pushSpState 0x1201).mem := by unfold Defined; decide
+example : Defined (pushSpState 0x1211).regs (pushSpState 0x1211).mem := by unfold Defined; decide
+example : Defined (pushSpState 0x1221).regs (pushSpState 0x1221).mem := by unfold Defined; decide
+example : Defined (pushSpState 0x1231).regs (pushSpState 0x1231).mem := by unfold Defined; decide
+/-- `push sp` stores the decremented SP -/
+example : tosAfter 0x1201 = (0x03fe, 0x03fe) := by decide
+/-- `push 2(sp)`: the index is applied to the decremented SP: the old top of stack -/
+example : tosAfter 0x1211 = (0x03fe, 0x2222) := by decide
+/-- `push @sp` reads the slot that is being written -/
+example : tosAfter 0x1221 = (0x03fe, 0x1111) := by decide
+/-- `push @sp+`: SP is back at 0x0400 and the word there is the one read at 0x03fe -/
+example : tosAfter 0x1231 = (0x0400, 0x1111) := by decide
 
 /-! ### The `-run` loop -/
 
